@@ -54,7 +54,7 @@ Section P.
   Proof.
     intros H. pose proof (bpred_boolish en p H) as B.
     destruct (partition3_any_l en p) as [E|[v [E [Hb [Hn _]]]]]; [exact E|].
-    rewrite E in B. destruct v; try contradiction; try discriminate Hb. congruence.
+    rewrite E in B. destruct v; try contradiction; try discriminate Hb; try congruence.
   Qed.
 
   (** the connectives are not Kleene: an operand without value makes AND / OR unknown *)
